@@ -280,6 +280,12 @@ def check_property(pid, tier, seed):
                 # property); when the body is different text its failure says the script no longer fits, not that the property fails
                 undecided.append("%s: proof hint no longer fits the changed function %s (%s): %s" % (tag, f.get("item"), kind, name))
                 continue
+            if (f.get("at_item") and f.get("at_item") != f.get("item") and f.get("at_item") in changed_items and part.startswith("requires")
+                    and kind.startswith("precondition not satisfied")):
+                # the precondition of a verified callee is plumbing between two contracts written for the ORIGINAL caller; a caller whose
+                # body is different text and no longer establishes it is a reason to doubt, not a demonstrated violation of the property
+                undecided.append("%s: the changed function %s no longer establishes a callee's precondition (%s): %s" % (tag, f.get("at_item"), kind, name))
+                continue
             if f.get("item") in tainted and part != "body":
                 undecided.append("%s: %s fails in the changed function %s, which also has an undischarged new implicit obligation: not evidence (%s)" % (tag, name, f.get("item"), kind))
                 continue
